@@ -178,7 +178,7 @@ class TblFeature(ABC):
             if "synonym" in key:
                 if "gene_synonym" not in tbl_qualifiers:
                     tbl_qualifiers["gene_synonym"] = []
-                for item in value:
+                for item in sorted(value):
                     if item != gene_symbol:
                         tbl_qualifiers["gene_synonym"].append(item)
             elif key == "db_xref":
@@ -293,7 +293,7 @@ class CDSTblFeature(TblFeature):
         qualifiers = gene_feature.qualifiers.copy()
 
         if "product" in transcript.qualifiers:
-            product = list(transcript.qualifiers["product"])[0]
+            product = sorted(transcript.qualifiers["product"])[0]
             # NCBI does not allow underscores in product names
             product = product.replace("_", " ")
         else:
@@ -420,7 +420,7 @@ class TRNATblFeature(TblFeature):
         qualifiers["transcript_id"] = [transcript.transcript_id]
 
         if "product" in transcript.qualifiers:
-            product = str(list(transcript.qualifiers["product"])[0])
+            product = str(sorted(transcript.qualifiers["product"])[0])
             if product.startswith("tRNA-"):
                 qualifiers["product"] = [product]
         else:
@@ -450,7 +450,7 @@ class RRNATblFeature(TblFeature):
         if "product" in transcript.qualifiers:
             # some tools encode rRNA with underscores, but tbl2asn does not like that
             # TODO: Try to find the complete list of rRNA names that they consider valid
-            qualifiers["product"] = [transcript.qualifiers["product"].pop().replace("_", " ")]
+            qualifiers["product"] = [sorted(transcript.qualifiers["product"])[0].replace("_", " ")]
         else:
             qualifiers["product"] = ["unknown ribosomal RNA"]
 
